@@ -137,6 +137,11 @@ CLAIMED = {
         "Theorems: a function wrapped in CWRAPPER_BEGIN/END never lets an exception out, for any table, core behaviour and call sequence; on the current table every function is protected or in an explicit justified list (decided by computation), with a refutation for lambda_real_double_visitor_init; each forwarder returns the C++ API value of the expected callee on the expected argument order or an error code with the state untouched (153 functions); vector/set/map container laws; state invariant after any history; Expression operators agree with core calls. Matrix/MPFR/LLVM/cse/solve wrappers are covered by the static table theorems only.",
         "Trusted: Coq kernel (vm_compute on the generated table); the translator (a changed body changes the table/fingerprint and breaks an obligation); extraction; known findings (listed): setbasic_get out of range, exceptions escaping lambda_real_double_visitor_init and basic_set_is_*subset/superset.",
         "7 (C42)"),
+    "C44": (
+        "Rocq proof over executable models of the MathML, LaTeX, Unicode (StringBox), Julia and SBML printers as token/line structures on the shared expression AST + byte-exact correspondence of all five printer outputs + well-formedness oracles on the library's own output",
+        "Unbounded theorems: MathML output is one well-formed XML element (nested tags, valid names, escaped character data) for every modelled tree; LaTeX brace groups and \\left/\\right pairs nest with valid delimiters under the guard (names without \\ { }, no FiniteSet - refuted witness = known finding -, numeric interval ends); every StringBox operation and every history of operations preserves rectangularity; Unicode boxes are rectangular for ASCII names (non-ASCII refuted = known finding); all five printers are total on supported trees and the classes outside throw by design; coverage of all 122 type codes. The SBML round trip is checked dynamically on every expression of the fragment (needs the canonicalising constructors), not proved.",
+        "Trusted: Coq kernel; extraction; hand transcription validated by byte-exact correspondence; name tables compared with the sources on every run; known findings (listed): latex FiniteSet delimiter (pinned by the repository's test), Unicode width of non-ASCII names.",
+        "7 (C44)"),
     "C46": (
         "Rocq proof over an executable model of homogeneous_lde (Contejean-Devie: stack, Frozen matrix with checked indices, order/is_minimum) + correspondence of returned bases in order + proved-correct brute-force enumerator as oracle",
         "Unbounded theorems for every integer matrix: every run that ends returns exactly the minimal non-zero non-negative solutions of A x = 0, each once (soundness, antichain, completeness by the Contejean-Devie argument), never indexes outside its arrays (stack-depth bound proved as an invariant), and more fuel does not change the result. Termination is proved only on complete small universes (kernel sweep), so the theorems are conditional on the run ending. Tied by comparing the returned basis (in order) between model and library and by an independent brute-force Hilbert-basis oracle in the driver.",
